@@ -68,20 +68,10 @@ async fn write_rows(agent: &Agent, rx: &mut klukai_types::channel::CorroReceiver
     }
 }
 
-async fn flush(n: usize) {
+async fn flush(agent: &Agent, n: usize) {
     if n == 0 { return; }
-    let before = vh::SUBS_FLUSHED.load(SeqCst);
-    vh::FLUSH_GEN.fetch_add(1, SeqCst);
-    let mut verif_bumped = Instant::now();
-    let t0 = Instant::now();
-    while vh::SUBS_FLUSHED.load(SeqCst) < before + n as u64 && t0.elapsed() < Duration::from_secs(20) {
-        if verif_bumped.elapsed() > Duration::from_millis(1500) {
-            // a loop that started after the bump took the bumped value as its baseline: bump again
-            vh::FLUSH_GEN.fetch_add(1, SeqCst);
-            verif_bumped = Instant::now();
-        }
-        tokio::time::sleep(Duration::from_millis(3)).await;
-    }
+    let ids: Vec<uuid::Uuid> = agent.subs_manager().get_handles().keys().cloned().collect();
+    let _ = crate::util::flush_loops(&ids, 20).await;
 }
 
 async fn sub_state(handle: &MatcherHandle) -> (String, i64, i64) {
@@ -170,7 +160,7 @@ pub fn restart(t: &mut Toks) -> String {
             let agent = live.agent.clone();
             let nsubs = if cur.is_some() { 1 } else { 0 };
             for (k, n) in ops {
-                if k == 0 { write_rows(&agent, &mut live.opts.rx_bcast, next, n).await; next += n; } else { flush(nsubs).await; }
+                if k == 0 { write_rows(&agent, &mut live.opts.rx_bcast, next, n).await; next += n; } else { flush(&agent, nsubs).await; }
             }
             let before = match &cur {
                 Some(h) => { let (r, m, _) = sub_state(h).await; format!("rows={} maxc={}", r, m) }
@@ -253,7 +243,7 @@ pub fn restart(t: &mut Toks) -> String {
         if let Some(h) = &cur {
             let agent = live.agent.clone();
             write_rows(&agent, &mut live.opts.rx_bcast, next, 2).await;
-            flush(1).await;
+            flush(&agent, 1).await;
             let (rows, maxc, _) = sub_state(h).await;
             let conn = h.pool().get().await.unwrap();
             let ids: Vec<String> = conn.prepare("SELECT id FROM changes ORDER BY id").unwrap().query_map([], |r| r.get::<_, i64>(0)).unwrap().map(|x| x.unwrap().to_string()).collect();
